@@ -35,6 +35,10 @@ CHECKS = {
          TB + "One-ulp classes only with power-of-two steps; steps 0.1 / 0.3 only with generic-position samples; interpolant other than linear is not modelled.", TECH, "4/C12"),
  "C13": ("After real workflows on Hydro.tla behaviours (three time steps, grid steps 1 / 0.5 / 2 mm) and on the field datasets, the members and *_interval_zeta rows are recorded together with the CLASSIFIED intervals of the right kind and their own samples; TLC (TraceProvenance.tla, re-using Regrid.tla) re-derives every crossing value from the owner's samples (rises: the segment from zero depth at the initial level to the storm's total depth at the final level), checks ownership, levels within the grid, and grid = floor(min/step)..ceil(max/step)-1 without holes.",
          TB + "Exact (1e-5 step) on lattice datasets; on field data single-crossing rows of intervals <= 60 samples at 0.03-step resolution, rise values only loosely (ownership and grid membership exactly).", "TLA+ trace validation (TLC re-derives each stored row from the specification's Regrid operators)", "4/C13"),
+ "C14": ("TLC enumerates every cubic polynomial of small integer coefficient sets, knot ranges, and every pair of integration limits plus split point on a half-integer lattice reaching beyond both ends (5.5*10^5 states), proving in exact integer arithmetic that the three-branch transcription of Spline.integrate equals the area under the clamped function, additivity, antisymmetry and constancy outside; because the cubic interpolating spline of polynomial data IS that polynomial, each case has an exact expectation and is replayed into the real SplineSpecificYield (uniform / non-uniform knot subsets, two abscissa scales, 1e-9); random real knot sets are recorded in fixed point and judged by TLC (through knots, constant outside, additive, antisymmetric, Simpson panels = area under the evaluated function).",
+         TB + "For non-polynomial knot values 'equals the area' is decided at about 1e-4 relative resolution (fixed point), not 1e-9.", TECH, "4/C14"),
+ "C15": ("On a log2 lattice (K = 2^e, levels at integral exponents) T - Tmin = A + B/ln 2 with A, B exact rationals computed segment by segment in Hydraulics.tla; TLC enumerates knot sets, exponent vectors (up to 14 binary orders) and levels, checks floor and monotonicity of both parts, and each case is replayed into the real SplineTransmissivity (value 1e-6 relative, scalar = array bit for bit, floor at and below the lowest knot, continuity at knots, monotone); random real parameters over 8 decades judged by TLC for monotonicity, floor and scalar/array agreement.",
+         TB + "Accuracy of QUADPACK for arbitrary real knots is not decided beyond the lattice; relations (floor, monotone, scalar/array) are.", TECH, "4/C15"),
  "C20": ("TLC explores Spowtd.tla exhaustively (every history of the five steps with two argument values each, read-only commands, doomed attempts, Fail and Kill at every abstract write index) checking Atomic (action property), NoMixture, Rerunnable, Confluent and termination of every started step, and emits every edge; the harness replays EVERY edge against the real CLI on a small Hydro.tla dataset: one canonical logical dump per abstract state, reproduced byte for byte by every history reaching it; faults (OperationalError) and kills (SIGKILL in a subprocess, hot journal) injected at the first / middle / last write and after the last write (thorough: every statement and every executemany row on a subset); after each the dump must equal the previous content and the step must re-run to the complete result; statement streams judged by TraceTxn.tla.",
          TB + "`load` is outside the property (its executescript commits the schema first). Write points are those visible to Python's sqlite3 layer (statements and executemany rows), not pager-level I/O.", "TLA+ model checking (TLC) of the command/transaction state machine + replay of every graph edge with fault and crash injection + trace validation of SQL statement streams", "4/C20"),
 }
